@@ -40,6 +40,16 @@ class ToolError(Exception):
     """Build failure, TLC failure, timeout: exit code 2, never a verdict."""
 
 
+class EngineHang(Exception):
+    """A harness engine (the code under test driven with small inputs) did not finish within a budget of at least 20
+    minutes, one to two orders of magnitude above what it needs on a loaded machine: a call of the library does not
+    return.  Reported as a violation of the property being checked (with the engine's arguments as replay)."""
+
+    def __init__(self, engine, args, timeout):
+        super().__init__(f"engine {engine} did not terminate within {timeout}s")
+        self.engine, self.args_, self.timeout = engine, list(args), timeout
+
+
 def log(*a):
     print(*a, flush=True)
 
@@ -165,8 +175,13 @@ def mbt(profile, engine, *args, timeout=3600, env_extra=None, check=True):
     env = dict(os.environ)
     if env_extra:
         env.update(env_extra)
-    p = subprocess.run([exe, engine, *args], stdout=subprocess.PIPE, stderr=subprocess.PIPE, text=True,
-                       timeout=timeout, env=env, preexec_fn=limit_as)
+    try:
+        p = subprocess.run([exe, engine, *args], stdout=subprocess.PIPE, stderr=subprocess.PIPE, text=True,
+                           timeout=timeout, env=env, preexec_fn=limit_as)
+    except subprocess.TimeoutExpired:
+        if timeout >= 1200:
+            raise EngineHang(engine, args, timeout)
+        raise
     if check and p.returncode != 0:
         sys.stdout.write(p.stdout[-3000:])
         sys.stdout.write(p.stderr[-3000:])
